@@ -1,11 +1,11 @@
 (* C19 — decoders report malformed input as an error and never bring the process down. *)
 From Coq Require Import List NArith ZArith Lia.
-From VT Require Import Base.Outcome Gen.Constants Model.MVT Model.Json Model.VPL Model.PMDir Model.Crash Proofs.NoPanicProofs.
+From VT Require Import Base.Outcome Gen.Constants Model.MVT Model.Json Model.VPL Model.PMDir Model.Crash Proofs.NoPanicProofs Model.Csv Proofs.CsvProofs.
 Import ListNotations.
 
 (* the variants of the decoders, regenerated from the current source: \u window handled without
    unwrap (JSON), checked directory arithmetic and bounded directory depth (PMTiles) *)
-Lemma C19_gen_variants : json_hex_variant = 1%N /\ pm_arith_variant = 1%N /\ pm_depth_variant = 1%N.
+Lemma C19_gen_variants : json_hex_variant = 1%N /\ pm_arith_variant = 1%N /\ pm_depth_variant = 1%N /\ csv_tail_variant = 1%N.
 Proof. repeat split; reflexivity. Qed.
 
 (* JSON: for every text the parser ends with a value or an error, never with the Panic outcome *)
@@ -33,6 +33,15 @@ Theorem C19_pmtiles_lookup_total :
   forall depth leaf, (forall o l, soft (leaf o l)) -> forall dir t, soft (pm_lookup pm_arith_variant depth leaf dir t).
 Proof. exact pm_lookup_soft. Qed.
 Print Assumptions C19_pmtiles_lookup_total.
+
+(* CSV reader: for every byte string, every separator and every UTF-8 validity oracle the reader
+   ends with rows or an error (quoted fields, doubled quotes, CR/LF, blank lines, field counts) *)
+Theorem C19_csv_total : forall sep valid l, snd (read_csv csv_tail_variant sep valid l) <> SPanic.
+Proof. exact read_csv_no_panic. Qed.
+Print Assumptions C19_csv_total.
+
+Theorem C19_csv_panic_refuted_before_fix : snd (read_csv 0 44 (fun _ => true) [34; 97; 34; 98]%N) = SPanic.
+Proof. vm_compute. reflexivity. Qed.
 
 (* the code before the repair is refuted by a concrete input: two ids whose sum exceeds u64 *)
 Theorem C19_pmtiles_unchecked_refuted :
